@@ -68,6 +68,24 @@ def flat(per_job):
     return [l for o in per_job for l in o]
 
 
+def size_of(line):
+    t = line.split()
+    return int(t[0]) if t and t[0].isdigit() else 8
+
+
+def robust_lines(binary, args, lines):
+    """common.run_lines; when a process dies (abort, stack overflow in the
+    implementation) the lines are run again in small groups and the culprits one
+    per process, so that the death becomes the result `died` of a graph."""
+    try:
+        out = common.run_lines(binary, args, lines, shards=common.NPROC)
+        if len(out) == len(lines):
+            return out
+    except common.BuildError as e:
+        common.log("C15: %s %s died (%s): running its lines in small groups" % (os.path.basename(binary), " ".join(args), e.what))
+    return run_jobs([("x", binary, args, lines)])["x"]
+
+
 def run_jobs(specs, timeout=1200):
     """specs: [(key, binary, args, lines)].  Few but heavy lines: the lines of
     all specs are cut into chunks of about equal weight (weight = node count
@@ -78,8 +96,8 @@ def run_jobs(specs, timeout=1200):
     chunks = []
     for key, binary, args, lines in specs:
         cur, w = [], 0
-        for k, l in sorted(enumerate(lines), key=lambda kl: -int(kl[1].split()[0])):
-            n = int(l.split()[0])
+        for k, l in sorted(enumerate(lines), key=lambda kl: -size_of(kl[1])):
+            n = size_of(l)
             cur.append(k)
             w += max(n, 8) ** 3
             if w >= 48 ** 3 or len(cur) >= 40:
@@ -350,7 +368,7 @@ def run(ctx, proofs):
     pb_hist = {}
     for _, pb in gen:
         pb_hist[str(pb)] = pb_hist.get(str(pb), 0) + 1
-    impl_r = common.run_lines(HARNESS_BIN, [], lines, shards=common.NPROC)
+    impl_r = robust_lines(HARNESS_BIN, [], lines)
     by_mode_r = {m: common.run_lines(MODEL_BIN, [m], lines, shards=common.NPROC) for m in MODES + ["rooted"]}
     if any(len(by_mode_r[m]) != len(lines) for m in by_mode_r) or len(impl_r) != len(lines):
         raise common.BuildError("line-mode outputs are incomplete", "%d lines, impl %d" % (len(lines), len(impl_r)))
@@ -380,13 +398,16 @@ def run(ctx, proofs):
     # (e) the production node type
     nprog = 300 if quick else 2000
     progs = [circom_function(ctx.rng) for _ in range(nprog)]
-    cfg_out = common.run_lines(HARNESS_BIN, ["cfg"], progs, shards=common.NPROC)
+    cfg_out = robust_lines(HARNESS_BIN, ["cfg"], progs)
     if len(cfg_out) != len(progs):
         raise common.BuildError("cfg-mode output is incomplete", "%d programs, %d lines" % (len(progs), len(cfg_out)))
-    cfg_cases, cfg_skipped = [], {}
+    cfg_cases, cfg_skipped, cfg_dead = [], {}, []
     for src, o in zip(progs, cfg_out):
         if " = " in o and o.split(" = ", 1)[0].split()[0].isdigit():
             cfg_cases.append((src, o.split(" = ", 1)[0], rhs(o)))
+        elif o.endswith(" = died") or o in ("parse-panic", "lift-panic"):
+            # the process or the lifter died on this program: never silent
+            cfg_dead.append((src, "died" if o.endswith(" = died") else o))
         else:
             cfg_skipped[o[:40]] = cfg_skipped.get(o[:40], 0) + 1
     glines = [c[1] for c in cfg_cases]
@@ -433,6 +454,9 @@ def run(ctx, proofs):
         elif proofs["failures"]:
             ctx.violation("proof obligations of C15 no longer check: " + "; ".join(proofs["failures"])[:500],
                           {"broken": "props/C15.v", "failures": proofs["failures"]}, no_input=True)
+    for src, how in cfg_dead[:3]:
+        ctx.violation("lifting `%s` and computing its dominator tree ends in `%s` (%d such programs)" % (src, how, len(cfg_dead)),
+                      {"circom": src, "impl": how, "spec": "a control-flow graph with its dominator tables"})
     # hypotheses and machinery: never silent
     if T.unrooted:
         ctx.violation("hypothesis `rooted g` of the C15 theorems is not met by %d explored graph(s) (every generator is meant to "
@@ -473,6 +497,7 @@ def run(ctx, proofs):
         "family_histogram": fam_hist,
         "production_cfg_sizes": prod_sizes,
         "production_programs_without_cfg": cfg_skipped,
+        "production_programs_that_died": len(cfg_dead),
         "back_edge_probability_histogram": pb_hist,
         "dominator_tree_depth_histogram": {str(k): v for k, v in sorted(T.depth.items())},
         "max_in_degree_histogram": {str(k): v for k, v in sorted(T.indeg.items())},
@@ -507,13 +532,17 @@ def replay(ctx, rep):
     HARNESS_BIN = common.build_harness("dom")
     MODEL_BIN = common.build_model("dom")
     line = rep.get("input")
+    if not line and rep.get("circom"):
+        out = robust_lines(HARNESS_BIN, ["cfg"], [rep["circom"]])
+        print("production path:", out[0][:2000])
+        return 1 if (out[0].endswith(" = died") or out[0] in ("parse-panic", "lift-panic")) else 0
     if not line:
         print("replay names a broken obligation, not an input:", rep.get("broken"))
         return 1
     n = int(line.split()[0])
     ok = True
     if rep.get("circom"):
-        out = common.run_lines(HARNESS_BIN, ["cfg"], [rep["circom"]])
+        out = robust_lines(HARNESS_BIN, ["cfg"], [rep["circom"]])
         print("production path:", out[0][:2000])
         if " = " in out[0]:
             line = out[0].split(" = ", 1)[0]
@@ -521,7 +550,7 @@ def replay(ctx, rep):
         else:
             return 1
     else:
-        impl = rhs(common.run_lines(HARNESS_BIN, [], [line])[0])
+        impl = rhs(robust_lines(HARNESS_BIN, [], [line])[0])
     rooted = rhs(common.run_lines(MODEL_BIN, ["rooted"], [line])[0])
     print("graph         :", line[:2000])
     print("hypothesis    :", rooted)
